@@ -164,6 +164,9 @@ def run(ctx):
             diffs.append({"request": line, "standard_verdict": list(exp), "model": list(m)})
         elif len(samples) < 6:
             samples.append({"request": line, "standard_verdict": list(exp), "model": list(m)})
+    from harness.props.pinblock_common import after_rejected_calls
+    dist["calls_after_rejected_calls"] = after_rejected_calls(ctx.rng, viol)
+    evals += dist["calls_after_rejected_calls"]
     return {"evaluations": evals, "distinct_nontrivial": len(seen), "samples": samples, "distribution": dist,
             "diffs": diffs, "violations": viol,
             "rule": "four decoders: every control nibble x every length nibble x well-formed bodies with 0,1,2 nibble-class "
